@@ -334,16 +334,21 @@ func AliasScenarios(e *Env) int {
 		{"Find(paths below _id)", func() []interface{} {
 			return []interface{}{bson.D{}, bson.D{{Key: "_id.k", Value: int32(0)}}, bson.D{{Key: "n", Value: int32(1)}, {Key: "_id.k", Value: bson.D{{Key: "$slice", Value: int32(1)}}}}}
 		}, func(e *Env, a []interface{}) []interface{} {
+			c.InsertOne(ctx, bson.D{{Key: "_id", Value: bson.D{{Key: "a", Value: int32(1)}, {Key: "b", Value: bson.A{int32(2)}}, {Key: "c", Value: int32(3)}}}, {Key: "n", Value: int32(1)}})
 			before := e.snapshot()
-			var ds, ds2 []bson.D
+			var ds, ds2, ds3 []bson.D
 			if cur, err := c.Find(ctx, a[0], options.Find().SetProjection(a[1])); err == nil {
 				cur.All(ctx, &ds)
 			}
 			if cur, err := c.Find(ctx, a[0], options.Find().SetProjection(a[2])); err == nil {
 				cur.All(ctx, &ds2)
 			}
+			// a member in the middle of the _id taken out of the returned copy
+			if cur, err := c.Find(ctx, a[0], options.Find().SetProjection(bson.D{{Key: "_id.b", Value: int32(0)}, {Key: "_id.a", Value: int32(0)}})); err == nil {
+				cur.All(ctx, &ds3)
+			}
 			e.mutateEvent("Find(paths below _id)", "read", before)
-			return []interface{}{ds, ds2}
+			return []interface{}{ds, ds2, ds3}
 		}},
 		{"UpdateOne(path below _id)", func() []interface{} {
 			return []interface{}{bson.D{{Key: "_id", Value: docID(3)}}, bson.D{{Key: "$set", Value: bson.D{{Key: "_id.k.0", Value: int32(99)}}}}, bson.D{{Key: "$set", Value: bson.D{{Key: "_id.z", Value: bson.A{int32(1)}}}}}}
